@@ -224,8 +224,4 @@ def tzWordsOf : Nat → Bytes → List Nat
 def tzParse (n : Nat) (b : Bytes) : PyRes (List Nat) :=
   if n > b.length / 4 then .error .spsdk else .ok (tzWordsOf n b)
 
-/-- `data = presets; data.update(customs)` on an association list in preset order -/
-def tzCustom (presets : List Nat) (customs : List (Option Nat)) : List Nat :=
-  (presets.zip (customs ++ List.replicate presets.length none)).map (fun pc => pc.2.getD pc.1)
-
 end SpsdkVerif.CfgArea
